@@ -1,7 +1,7 @@
 // C17 native replay: split a message for end-to-end encryption with the REAL library (public part = toXml(ScePublic),
 // sensitive part = serializeExtensions(SceSensitive) inside an SCE <content/>), parse both parts back the way the
 // OMEMO receive path does (parse(public, ScePublic); parseExtensions(content, SceSensitive)) and evaluate the property.
-//   replay_split jmi | callinvite | extensions | control | all        exit 1 + "VIOLATED ..." if a scenario violates the property
+//   replay_split jmi | callinvite | extensions | pubsub | control | all        exit 1 + "VIOLATED ..." if a scenario violates the property
 #include <QDomDocument>
 #include <QXmlStreamWriter>
 #include <QTextStream>
@@ -11,6 +11,8 @@
 #include "QXmppJingleData.h"
 #include "QXmppElement.h"
 #include "QXmppGlobal.h"
+#include "QXmppPubSubEvent.h"
+#include "QXmppPubSubBaseItem.h"
 
 static QByteArray publicPart(const QXmppMessage &m)
 {
@@ -142,6 +144,20 @@ static void scenarioExtensions()
     printf("         extensions: the sensitive part %s the custom element\n", sens.contains("top secret custom payload") ? "contains" : "does NOT contain");
 }
 
+static void scenarioPubSub()
+{
+    // the one subclass that overrides serializeExtensions: a PubSub event notification (retract of an item of a PEP node)
+    QXmppPubSubEvent<QXmppPubSubBaseItem> ev;
+    ev.setEventType(QXmppPubSubEventBase::Retract);
+    ev.setNode(QStringLiteral("urn:ZZ-node-ZZ"));
+    ev.setTo(QStringLiteral("bob@example.org"));
+    ev.setRetractIds({ QStringLiteral("ZZ-retract-ZZ") });
+    QByteArray pub = publicPart(ev), sens = sensitivePart(ev);
+    check("pubsub", "public part does not contain the <event/> payload (node, retracted item id)",
+          !pub.contains("ZZ-retract-ZZ") && !pub.contains("ZZ-node-ZZ") && !pub.contains("<event"));
+    check("pubsub", "sensitive part contains the <event/> payload", sens.contains("ZZ-retract-ZZ") && sens.contains("ZZ-node-ZZ"));
+}
+
 int main(int argc, char **argv)
 {
     const char *which = argc > 1 ? argv[1] : "all";
@@ -150,6 +166,7 @@ int main(int argc, char **argv)
     if (all || !strcmp(which, "jmi")) scenarioJmi();
     if (all || !strcmp(which, "callinvite")) scenarioCallInvite();
     if (all || !strcmp(which, "extensions")) scenarioExtensions();
+    if (all || !strcmp(which, "pubsub")) scenarioPubSub();
     printf("%d check(s) violated\n", violated);
     return violated ? 1 : 0;
 }
